@@ -262,6 +262,27 @@ class AttrRename(ast.NodeTransformer):
         return n
 
 
+class TernaryToIf(ast.NodeTransformer):
+    """`x = a if c else b` (statement level, single target) -> if c: x = a / else: x = b"""
+    def visit_Assign(self, n):
+        if len(n.targets) == 1 and isinstance(n.value, ast.IfExp) and isinstance(n.targets[0], (ast.Name, ast.Attribute)):
+            import copy
+            v = n.value
+            return ast.If(test=v.test, body=[ast.Assign(targets=[copy.deepcopy(n.targets[0])], value=v.body)],
+                          orelse=[ast.Assign(targets=[copy.deepcopy(n.targets[0])], value=v.orelse)])
+        return n
+
+
+class IfToTernary(ast.NodeTransformer):
+    """if c: x = a / else: x = b  ->  x = a if c else b"""
+    def visit_If(self, n):
+        self.generic_visit(n)
+        if len(n.body) == 1 and len(n.orelse) == 1 and all(isinstance(b, ast.Assign) and len(b.targets) == 1 for b in (n.body[0], n.orelse[0])) \
+                and ast.dump(n.body[0].targets[0]) == ast.dump(n.orelse[0].targets[0]) and isinstance(n.body[0].targets[0], (ast.Name, ast.Attribute)):
+            return ast.Assign(targets=[n.body[0].targets[0]], value=ast.IfExp(test=n.test, body=n.body[0].value, orelse=n.orelse[0].value))
+        return n
+
+
 class AddDocstrings(ast.NodeTransformer):
     """every function without a docstring gets one (maintainers document code; rules must not count a docstring as a statement)"""
     def visit_FunctionDef(self, n):
@@ -324,6 +345,10 @@ def transform(root, kind):
             tree = ast.parse(src)
             if kind == "flipcmp":
                 tree = FlipCmp().visit(tree)
+            elif kind == "ternary2if":
+                tree = TernaryToIf().visit(tree)
+            elif kind == "if2ternary":
+                tree = IfToTernary().visit(tree)
             elif kind == "docstring":
                 tree = AddDocstrings().visit(tree)
             elif kind == "annotate":
@@ -361,7 +386,7 @@ def transform(root, kind):
 def main():
     kinds = [a for a in sys.argv[1:] if not a.startswith("--")] or ["all"]
     if kinds == ["all"]:
-        kinds = ["unparse", "flipcmp", "invertif", "rename", "rename2", "rename3", "extractcond", "cellify", "earlyreturn", "attrrename", "docstring", "annotate"]
+        kinds = ["unparse", "flipcmp", "invertif", "rename", "rename2", "rename3", "extractcond", "cellify", "earlyreturn", "attrrename", "docstring", "annotate", "ternary2if", "if2ternary"]
     bad = 0
     for kind in kinds:
         tmp = tempfile.mkdtemp(prefix="rxsa_rf_")
